@@ -434,8 +434,9 @@ def c09_cases() -> List[tuple]:
             continue
         n = exchange_len(devkind, op)
         for step in range(n):
-            cases.append((devkind, op, step, "eof", 0))
-            cases.append((devkind, op, step, "extra", 0))
+            for rep in range(24 if op == "control_breeze_device" else 4):
+                cases.append((devkind, op, step, "eof", rep))
+                cases.append((devkind, op, step, "extra", rep))
             for plen in range(1, 110):
                 cases.append((devkind, op, step, "truncate", plen))
             for off in range(0, 110, 1):
@@ -456,9 +457,20 @@ def gen_c09_systematic(rng, index: int) -> Dict[str, Any]:
     cfg["devices"], cfg["clients"] = devices, clients
     st = gen_op(rng, op, clients[0])
     if op == "control_breeze_device":
-        # make sure the exchange is long enough to reach `step`
-        st["args"] = {"state": rng.choice(["ON", "OFF"]), "mode": None, "swing": rng.choice(["ON", "OFF"])}
-        st["args"] = {k: v for k, v in st["args"].items() if v is not None}
+        # argument shapes that reach every path of the exchange: full, state-only, swing-only, update-only
+        shape = rng.choice(["state+swing", "state+swing", "swing-only", "state-only", "update", "update-swing-only"])
+        a = {}
+        if shape in ("state+swing", "state-only", "update"):
+            a["state"] = rng.choice(["ON", "OFF"])
+        if shape in ("state+swing", "swing-only", "update-swing-only"):
+            a["swing"] = rng.choice(["ON", "OFF"])
+        if shape.startswith("update"):
+            a["update_state"] = True
+        st["args"] = a
+        special = rng.random() < 0.6
+        clients[0]["irset"] = irsets.gen_irset(rng, special=special, density=1.0)
+        devices[0]["state"]["t_remote"] = clients[0]["irset"]["IRSetID"]
+        devices[0]["state"]["t_mode"] = rng.choice(irsets.capabilities(clients[0]["irset"])["modes"])
     st["client"] = 0
     reps: List[Optional[dict]] = [None] * 4
     if fam == "eof":
